@@ -1,7 +1,7 @@
 from collections import deque
 from attr import attrs, attrib
 from zope.interface import implementer
-from twisted.internet.interfaces import IPushProducer, IPullProducer
+from twisted.internet.interfaces import IPushProducer, IProducer
 from twisted.python import log
 from twisted.python.reflect import safe_str
 from .._interfaces import IDilationManager, IOutbound
@@ -362,7 +362,9 @@ class Outbound:
 @implementer(IPushProducer)
 @attrs(eq=False)
 class PullToPush:
-    _producer = attrib(validator=provides(IPullProducer))
+    # (twisted.protocols.basic.FileSender, the standard pull producer, only
+    # declares IProducer - and a TCP transport does not ask at all)
+    _producer = attrib(validator=provides(IProducer))
     _unregister = attrib(validator=lambda _a, _b, v: callable(v))
     _cooperator = attrib()
     _finished = False
